@@ -117,6 +117,47 @@ fn sample_idx(n: u32, cap: usize) -> Vec<u32> {
     }
 }
 
+/// Adversarial call order on a freshly loaded sprite (deepest / last entities first, rendering before metadata): an
+/// immutable value answers the same afterwards. Results are discarded; panics are swallowed (the sweep will meet them).
+pub fn perturb(ase: &AsepriteFile, lim: &Limits) {
+    let q = |f: &mut dyn FnMut()| {
+        let _ = std::panic::catch_unwind(std::panic::AssertUnwindSafe(f));
+        crate::PANIC_INFO.with(|p| p.borrow_mut().take());
+    };
+    let (nl, nf) = (ase.num_layers(), ase.num_frames());
+    let render = ase.width() * ase.height() <= lim.max_canvas;
+    if render {
+        for f in (0..nf.min(4)).rev() {
+            q(&mut || {
+                let _ = ase.frame(f).image();
+            });
+        }
+    }
+    for i in (nl.saturating_sub(512)..nl).rev() {
+        q(&mut || {
+            let l = ase.layer(i);
+            let _ = l.is_visible();
+            let _ = l.parent().map(|p| p.id());
+        });
+    }
+    for f in (0..nf.min(4)).rev() {
+        for l in (0..nl.min(8)).rev() {
+            q(&mut || {
+                let c = ase.cel(f, l);
+                let _ = (c.is_empty(), c.top_left(), c.user_data().is_some());
+                if render {
+                    let _ = c.image();
+                }
+                let _ = ase.tilemap(l, f).map(|t| (t.width(), t.tile(0, 0).id()));
+            });
+        }
+    }
+    q(&mut || {
+        let _ = ase.layers().last().map(|l| l.id());
+        let _ = ase.palette().map(|p| p.num_colors());
+    });
+}
+
 /// Full observation of a loaded sprite. Every accessor group runs under a panic guard;
 /// `panics` lists the accessors that did not return normally.
 pub fn observe(ase: &AsepriteFile, lim: &Limits) -> Value {
@@ -189,6 +230,37 @@ pub fn observe(ase: &AsepriteFile, lim: &Limits) -> Value {
     }
     if let Some(v) = sw.guard("layers.iter", || ase.layers().map(|l| l.id()).collect::<Vec<_>>()) {
         o.insert("iter_ids".into(), json!(v));
+    }
+    // the iterator protocol: the adapters std builds on `nth` / `size_hint` must see the same sequence as plain `next()`
+    if let Some(v) = sw.guard("layers.iter", || {
+        let cap = 48usize;
+        let ids = |it: &mut dyn Iterator<Item = asefile::Layer>| it.take(cap).map(|l| l.id()).collect::<Vec<u32>>();
+        let mut after_nth = ase.layers();
+        let nth1 = after_nth.nth(1).map(|l| l.id());
+        let rest = ids(&mut after_nth);
+        let (lo, hi) = ase.layers().size_hint();
+        let next_then_max = {
+            let mut it = ase.layers();
+            let _ = it.next();
+            it.nth(u32::MAX as usize).is_none() && it.next().is_none()
+        };
+        json!({
+            "skip1": ids(&mut ase.layers().skip(1)),
+            "skip_last2": ids(&mut ase.layers().skip((nl as usize).saturating_sub(2))),
+            "step2": ids(&mut ase.layers().step_by(2)),
+            "step3": ids(&mut ase.layers().step_by(3)),
+            "nth1": nth1.map_or(json!([]), |i| json!([i])),
+            "after_nth1": rest,
+            "nth_len_none": ase.layers().nth(nl as usize).is_none(),
+            "nth_max_none": ase.layers().nth(usize::MAX).is_none() && ase.layers().skip(usize::MAX).next().is_none(),
+            "next_then_nth_max_none": next_then_max,
+            "count": ase.layers().count(),
+            "last": ase.layers().last().map_or(json!([]), |l| json!([l.id()])),
+            "size_hint_ok": lo <= nl as usize && hi.map_or(true, |h| h >= nl as usize),
+            "zip_names": ase.layers().zip(0..nl).take(cap).all(|(l, i)| l.id() == i),
+        })
+    }) {
+        o.insert("iter_protocol".into(), v);
     }
     if let Some(v) = sw.guard("layer_by_name", || {
         let mut names: Vec<String> = (0..nl).map(|i| ase.layer(i).name().to_string()).collect();
@@ -420,6 +492,15 @@ pub fn observe(ase: &AsepriteFile, lim: &Limits) -> Value {
                 for y in 0..gh + 2 {
                     for x in 0..gw + 2 {
                         coords.push((x, y));
+                    }
+                }
+                // the stored area can be much larger than the canvas grid (its size is not exposed): a coarse lattice over the
+                // first 300 x 300 positions, dense around 256
+                let lat = [3u32, 100, 254, 255, 256, 257, 258, 259, 299];
+                for &y in &lat {
+                    for &x in &[0u32, 1, 2, 255, 256, 257, 299] {
+                        coords.push((x, y));
+                        coords.push((y, x));
                     }
                 }
                 let big = [65535u32, 65536, (1 << 31) - 1, 1 << 31, u32::MAX - 2, u32::MAX];
